@@ -6,7 +6,7 @@ contexts of depth 1 (quick) / 2 (thorough).
 """
 import itertools
 
-from .. import ctxgen
+from .. import ctxgen, ctorseq
 from ..staticprop import evaluate_verdict
 
 ID = "C06"
@@ -122,7 +122,11 @@ def payloads(tier):
 
 def cases(tier, seed):
     depth = 1 if tier == "quick" else 2
-    yield from ctxgen.cases_for(payloads(tier), depth, "c06")
+    # every case also with an independent, legal None-in-a-branch at the start of the file (the first None of the file then
+    # sits in one constraint set only); thorough: the other noise prefixes too
+    yield from ctxgen.cases_for(payloads(tier), depth, "c06", noise=("none-in-branch",) if tier == "quick" else tuple(ctxgen.NOISE))
+    # the constructor machine (mv/ctorseq.py): constructor bodies whose only fault is a non-nullable field left unassigned on some path
+    yield from ctorseq.cases("C06", tier)
 
 
 def evaluate(case, drv):
